@@ -1451,8 +1451,15 @@ class Context:
         ctx = self  # Capture self for closure
 
         def regexp_constructor_fn(*args):
-            pattern = to_string(args[0]) if args else ""
-            flags = to_string(args[1]) if len(args) > 1 else ""
+            pattern = args[0] if args else UNDEFINED
+            flags = args[1] if len(args) > 1 else UNDEFINED
+            if isinstance(pattern, JSRegExp):
+                # new RegExp(regex[, flags]): same pattern, its flags unless others are given
+                if flags is UNDEFINED:
+                    flags = pattern._flags
+                pattern = pattern._pattern
+            pattern = "" if pattern is UNDEFINED else to_string(pattern)
+            flags = "" if flags is UNDEFINED else to_string(flags)
             # Create timeout callback if we have a current VM with time_limit
             poll_callback = None
             if ctx._current_vm and ctx._current_vm.time_limit is not None:
